@@ -531,6 +531,46 @@ func (c *Ctx) inLoop(fa *FnAnalysis, in ssa.Instruction) bool {
 func (c *Ctx) ruleEqParts() {
 	rep := c.rep
 	tt := c.eng.tt
+	// ---- stackageStructsEqual: "tried, no difference" only after a native IsEqual said so
+	if fn := c.anchor("R-COVER", "stackageStructsEqual"); fn != nil {
+		fa := c.eng.analyze(fn, nil)
+		var problems []string
+		for _, ret := range c.returnsOf(fn) {
+			for _, s := range fa.statesBefore(ret) {
+				tried, tk := c.knownBool(fa, s, ret.Results[0])
+				if tk && !tried {
+					continue
+				}
+				et := fa.term(s, ret.Results[1])
+				isNil := et.K == "C" && et.Const == nil
+				if !isNil {
+					if v, known := fa.nonNil(s, ret.Results[1]); known && !v {
+						isNil = true
+					}
+				}
+				var viaIsEqual bool
+				for _, ic := range c.findCalls(fn, "Stack.IsEqual", "Condition.IsEqual") {
+					if _, did := s.cep[ic]; did && fa.term(s, ic) == et {
+						viaIsEqual = true
+					}
+				}
+				if viaIsEqual {
+					continue
+				}
+				if isNil || !(et.K == "APP" && et.S == "errorf" || et.K == "V" && isCallTo(c, et.V, "errorf")) {
+					if v, known := fa.nonNil(s, ret.Results[1]); !known || !v {
+						problems = append(problems, c.p.instrPos(ret)+": 'compared' is reported with a verdict that is neither an error nor the result of IsEqual on the two converted instances (e.g. a Condition facing a non-Condition accepted)")
+					}
+				}
+			}
+		}
+		if len(problems) == 0 {
+			rep.ok("R-COVER", relName(fn), "verdict", c.p.pos(fn.Pos()), "tried is reported only with an error or with the verdict of IsEqual on the two converted instances")
+		} else {
+			sort.Strings(problems)
+			rep.bad("R-COVER", relName(fn), "verdict", c.p.pos(fn.Pos()), strings.Join(uniq(problems), "; "))
+		}
+	}
 	// ---- condition.isEqual
 	if fn := c.anchor("R-COVER", "(*condition).isEqual"); fn != nil {
 		fa := c.eng.analyze(fn, nil)
